@@ -610,7 +610,9 @@ def main(argv):
         missing = []
         if not a.stage and not violations:
             for lab in getattr(mod, "REQUIRED_LABELS", {}).get(a.tier, ()):
-                if total["labels"].get(lab, 0) == 0:
+                # "a|b": either class will do (e.g. a class that only shows while a known
+                # finding is still open, or its counterpart once the defect is repaired)
+                if all(total["labels"].get(x, 0) == 0 for x in lab.split("|")):
                     missing.append(lab)
             gate = getattr(mod, "gate", None)
             if gate is not None:
